@@ -183,6 +183,60 @@ def ob_block_isolation(w, P):
     return x.result()
 
 
+def ob_block_files_intruded(w, P):
+    """a block that replaces / removes file-backed values and stores new ones is open while a write by another thread
+    through the same object (or by another handle) is attempted and refused; the block then commits or raises.  The
+    refused write must not disturb the block's own file bookkeeping: afterwards every row has its value file and no
+    file is left over."""
+    x = Ctx(w, P, kinds=('file',), tags=False, min_file_size=0, cull_limit=0, alive_sym=False, key_lo=0, key_hi=1)
+    c = x.c
+    core = w.L.core
+    for rv in x.s.rowvars:
+        assume(rv['expire_null'].z)
+    krow = int(x.s.rowvars[0]['key'])
+    same_object = P.get('who') == 'thread'
+    other = c if same_object else w.clone_handle(c)
+    res = {}
+    retry = P.get('retry', False)
+
+    def intruder():
+        w.tid, old = 2, w.tid
+        try:
+            try:
+                res['ret'] = other.set(krow + 7, b'intruder', retry=False) if not retry else other.add(krow + 7, b'intruder')
+            except core.Timeout:
+                res['ret'] = 'timeout'
+        finally:
+            w.tid = old
+    w.interfere_at = x.s.v_int('at', 0, P.get('max_events', 16))
+    w.interfere_hook = intruder
+    raise_end = bool(x.s.v_bool('raise_at_end'))
+    x.begin()
+    try:
+        with c.transact():
+            c.set(krow + 3, b'new-file-value')  # a file created inside the block
+            c.set(krow, b'replacement')         # replaces a file-backed value: the old file goes after COMMIT
+            if raise_end:
+                raise Boom()
+    except Boom:
+        pass
+    x.end()
+    if 'ret' in res:
+        flag('intruded')
+        if res['ret'] == 'timeout':
+            flag('refused_inside')
+    if raise_end:
+        flag('block_raised')
+        x.add('C06,C14,C08', 'an aborted block leaves every item as before also when a write was refused meanwhile', Or('ret' in res and res['ret'] is True, And(unchanged(x.T0, x.T1), spec.same_count(x.T0, x.T1))))
+    else:
+        flag('block_committed')
+        it = x.T1.lookup(Cell(INT, krow), Cell(INT, 1))
+        x.add('C06,C14', 'a completed block leaves its writes also when a write was refused meanwhile', And(it.present, x.T1.lookup(Cell(INT, krow + 3), Cell(INT, 1)).present))
+    x.add('C06,C14,C08', 'counters match', state.inv_table(x.T1))
+    x.add('C06,C14,C08', 'every row has its value file and no value file is left over (the refused write did not disturb the cleanup lists of the open block)', x.s.fs_inv(x.T1))
+    return x.result()
+
+
 # ------------------------------------------------------------------ FanoutCache.transact: one block over every shard
 
 FPOOL = [0, 1, 2, 3]
@@ -332,6 +386,8 @@ def jobs(tier):
             add('ob_block', 'C07,C06', weight=N * 30, must=['crashed'], N=N, ops=ops, crash=True, no_cull=True)
         for who in ('handle', 'thread'):
             add('ob_block_isolation', 'C06,C05', weight=N * 2, must=['intruded_inside'], N=N, who=who)
+    for who in ('handle', 'thread'):
+        add('ob_block_files_intruded', 'C06,C14,C08', weight=8, must=['refused_inside', 'block_raised', 'block_committed'], N=1, who=who)
     add('ob_block_fanout', 'C06,C08', weight=8, must=['block_raised', 'block_committed'], nops=2)
     add('ob_block_fanout', 'C06,C14', weight=20, must=['intruded_inside'], nops=1, intrude=True)
     return out
